@@ -166,12 +166,27 @@ static void err_case(Toks& tk, Out& out, Params params)
             {
               auto as = Species("A", std::map<std::string, double>{ { "molecular weight [kg mol-1]", 0.025 },
                                                                        { "diffusion coefficient [m2 s-1]", 2.3e2 } });
-              Process p = Process::Create()
-                              .SetReactants({ as, b })
-                              .SetProducts({ Yields(c, 1) })
-                              .SetRateConstant(SurfaceRateConstant({ .label_ = "surf", .species_ = as, .reaction_probability_ = 0.5 }))
-                              .SetPhase(gas);
-              (void)p;
+              if (pos % 2 == 0)
+              {
+                Process p = Process::Create()
+                                .SetReactants({ as, b })
+                                .SetProducts({ Yields(c, 1) })
+                                .SetRateConstant(SurfaceRateConstant({ .label_ = "surf", .species_ = as, .reaction_probability_ = 0.5 }))
+                                .SetPhase(gas);
+                (void)p;
+              }
+              else
+              {
+                // the same process described in another order: the rate constant first, the reactants afterwards,
+                // and the reactants set a second time on the same builder
+                Process p = Process::Create()
+                                .SetRateConstant(SurfaceRateConstant({ .label_ = "surf", .species_ = as, .reaction_probability_ = 0.5 }))
+                                .SetReactants({ as })
+                                .SetProducts({ Yields(c, 1) })
+                                .SetPhase(gas)
+                                .SetReactants({ as, b });
+                (void)p;
+              }
             });
       case 15: return describe([&] { (void)a.template GetProperty<double>("no such property"); });
       case 16:
